@@ -102,7 +102,9 @@ def compare_listing(exp_rows, got_rows):
 def one_program(acc, probe, rng, cli):
     prog = P.generate(rng, KNOBS)
     try:
-        files, r = render.render_program(prog)
+        # a third of the programs in the hostile layout: several statements on one line, statements that continue on the
+        # next line inside a block comment, comment and blank lines (LF only: the listing is compared line by line)
+        files, r = render.render_program(prog, render.Hostile(rng, crlf=False, case=False) if rng.random() < 0.35 else None)
     except render.SpellError:
         acc.count("generator.unspellable")
         return
